@@ -27,6 +27,16 @@ var commonAssumptions = []string{
 }
 
 var props = map[string]propCfg{
+	"C10": {
+		BinRace: true, QuickBatches: 8, ThoroughBatches: 48, Parallel: 8, Bins: []string{"rtcmfilter"}, AppTests: []string{"rtcmfilter"}, Level: "exploration", Floor: 40,
+		Rule: "(a) in process, through a test file added to apps/rtcmfilter at check time by the build overlay: HandleMessages(start, reader, writer, config) with all four display/record combinations, paced/chunked readers, writers that are fast / yielding / sleeping, GOMAXPROCS in {1,2,4,16}, race detector on; the written bytes are compared at quiescence, defined on goroutine states (every goroutine with a frame in apps/rtcmfilter/main.go parked in a channel receive or gone, no write in flight, call counter stable). (b) the real binary built from the current tree with the hook overlay and the race detector: stdin as a file or a pipe written in random chunks with gaps, stdout read fast or through a 4 kB pipe read slowly, yield/sleep hook profiles, files read after exit as the date-ordered concatenation of the fresh log directory. Oracle: output (and record file when recording) = concatenation of the typed messages of the same build's sequential framing, each required to be a frame by the independent predicate; readable log has one 'Frame length N bytes:' entry per delivered message. Inputs: captured batches, clean streams ending in a frame, hostile streams, well-formed decodable messages, truncated tails. Non-trivial: >= 2 messages delivered. Distinct by hash of the case.",
+		Assumptions: commonAssumptions,
+	},
+	"C11": {
+		BinRace: true, QuickBatches: 8, ThoroughBatches: 48, Parallel: 8, Bins: []string{"rtcmfilter", "displayrtcm3"}, AppTests: []string{"rtcmfilter", "displayrtcm3"}, Level: "exploration", Floor: 40,
+		Rule: "in process (overlay-added test in each application's package main, race detector on): HandleMessages is called with a writer that completes each Write only after a delay (none / yields / 20 us - 1.5 ms sleep / blocks 5 ms per call) and counts completed bytes; the bytes completed are snapshotted by the calling goroutine in the statement after the call returns - no waiting is part of the verdict: a strict prefix of the full expected output = violation, equal = held. Expected output from the same build sequentially: headings + String()+newline of every message (displayrtcm3) or the valid frames (rtcmfilter). Inputs with 1..200 messages ending in a valid frame / junk / truncated frame; GOMAXPROCS in {1,2,16}. Plus process-level runs of both real binaries over finite files with stdout read fast or through a small slow pipe: the bytes that reach the pipe before exit are compared the same way. Non-trivial: non-empty input and a writer that is not instantaneous. Distinct by hash of the case.",
+		Assumptions: commonAssumptions,
+	},
 	"C15": {
 		Race: true, QuickBatches: 8, ThoroughBatches: 64, Parallel: 8, Level: "exploration", Floor: 50,
 		Rule:        "a pool of ~250 frames (captured receiver frames; generated well-formed MSM4/MSM7 of all 14 types incl. illegal timestamps and padding, truncated ill-formed bodies, 1005/1006 well-formed and truncated, random frames of other types). Canonical result per frame and log level = decoded struct (reflect.DeepEqual) and readable text with the two MSM time lines removed, from a fresh handler processing that frame first. Histories: 200 frames in random order with immediate and distant repetitions through ONE handler at both levels, each step compared with the canonical result, displayed twice, raw-byte hash before/after. Concurrency under the race detector: 2-16 goroutines each with its own handler decoding from the SAME input byte slices, every message value-copied (as the fan-out does) to 2-4 consumer goroutines that display, Analyse, PrepareForDisplay, Copy and set their own log level; GOMAXPROCS in {2,4,16}; two goroutines never share one *Message (the property speaks of copies). Non-trivial: every history/concurrent run (each mixes all types). Distinct by hash of (pool seed, order / parameters).",
